@@ -5,6 +5,7 @@ from checks import evbuffer_common as ec
 CORE = {"add", "prepend", "drain", "remove", "addbuf", "prependbuf", "rmbuf", "pullup", "readln", "freeze", "unfreeze"}
 SPACE = {"add", "prepend", "expand", "rescommit", "addiov", "printf", "drain", "pullup", "rmbuf"}
 REFS = {"add", "addref", "addbufref", "addfile", "drain", "remove", "rmbuf", "addbuf", "prependbuf", "pullup", "prepend"}
+MOVES = {"add", "rmbuf", "addbuf", "prependbuf", "drain", "remove", "pullup", "prepend"}
 BIGDATA = ("", "a", "b", "aCL", "L", "N", "bLa", "C", "aa", "LC", "bNa")
 
 
@@ -17,10 +18,15 @@ def run(tier, seed):
     A = ec.C12_ACTS
     gen = [
         # every history of 2 calls over the core family (exhaustive), chain-crossing widths
-        dict(name="C12_exh_core", consts=ec.consts(CORE, 2, wa=37, wb=331, nsel=(0, 1, 2, 9))),
-        dict(name="C12_exh_space", consts=ec.consts(SPACE, 2, wa=1021, wb=4099, data=("", "a", "b", "aCL"), nsel=(0, 1, 9),
-                                                   sizes=(0, 100, 2000, 5000))),
-        dict(name="C12_exh_refs", consts=ec.consts(REFS, 2, wa=331, wb=1021, data=("a", "bLa"), nsel=(0, 1, 2, 9))),
+        dict(name="C12_exh_core", consts=ec.consts(CORE, 2, wa=37, wb=331, data=("a", "b", "aCL", "L", "N", "aC") if q else ("", "a", "b", "aCL", "L", "N", "aC", "LC"),
+                                                  nsel=(0, 1, 9) if q else (0, 1, 2, 9))),
+        dict(name="C12_exh_space", consts=ec.consts(SPACE - ({"rmbuf", "addiov", "printf"} if q else set()), 2, wa=1021, wb=4099,
+                                                   data=("a", "b") if q else ("", "a", "b", "aCL"), nsel=(1, 9) if q else (0, 1, 9),
+                                                   sizes=(0, 2000, 5000) if q else (0, 100, 2000, 5000))),
+        dict(name="C12_exh_refs", consts=ec.consts(REFS - ({"remove", "prependbuf", "prepend", "pullup"} if q else set()), 2,
+                                                  wa=331, wb=1021, data=("a", "bLa"), nsel=(1, 9) if q else (0, 1, 2, 9))),
+        # multi-chain start states: 3 forced single-symbol adds, then every 2-call (3-call) history of the move family
+        dict(name="C12_warm_moves", consts=ec.consts(MOVES, 5 if q else 6, wa=1021, wb=4099, data=("a", "b"), nsel=(1, 2, 9), warm=3)),
     ]
     sims = [(1, 1), (37, 331), (1021, 4099)] if q else ec.WIDTHS
     for (wa, wb) in sims:
@@ -44,6 +50,9 @@ def run(tier, seed):
         dict(name="C12_known_abr0", consts=ec.consts({"add", "expand", "addbufref", "abr0"}, 3, data=("a",), sizes=(100,)),
              key_fn=lambda h, k, msg: "addbufref-empty-dst-chain"
              if has_op(h, lambda s: s["a"] == "addbufref") and "crash" in msg else None),
+        dict(name="C12_known_mcpull", consts=ec.consts({"add", "addbufref", "pullup", "mcpull"}, 6, wa=37, wb=331, data=("a", "b")),
+             key_fn=lambda h, k, msg: "multicast-pullup-shared-memory"
+             if has_op(h[:k + 1], lambda s: s["a"] == "addbufref") and h[k]["a"] == "pullup" else None),
     ]
     plan = {
         "mc": [("C12_mc", ec.consts(A, 2 if q else 3, wa=2, wb=3, data=("", "a", "aCL", "bLa"), nsel=(0, 1, 9), sizes=(0,)))],
